@@ -83,6 +83,13 @@ Theorem C10_schedule_validity_is_permutation_invariant :
 Proof. exact valid_sched_perm. Qed.
 Print Assumptions C10_schedule_validity_is_permutation_invariant.
 
+(* what the validator means: a valid schedule is, clique by clique (as sets), a permutation of the enumeration *)
+Theorem C10_valid_schedule_is_arrangement :
+  forall (g : graph) (sh : list (list nat)), ValidGraph g -> valid_sched g sh = true ->
+    exists sh', Permutation sh' (all_cliques g) /\ Forall2 (fun a b => forall x, In x a <-> In x b) sh sh'.
+Proof. exact valid_sched_arrangement. Qed.
+Print Assumptions C10_valid_schedule_is_arrangement.
+
 (* the enumerator is sound and complete: its members are cliques, every clique of g has its set in it *)
 Theorem C10_enumeration_sound :
   forall (g : graph) (k : list nat), ValidGraph g -> In k (all_cliques g) -> CliqueP g k /\ k <> [].
